@@ -456,6 +456,37 @@ def file_const(src, const, expect):
     return m.group(1)
 
 
+DIRECT_WRITE = re.compile(r"(?:write::write_xml_to_file|close_already::fs::write|(?:std::)?fs::write|"
+                          r"(?:std::)?fs::create_dir(?:_all)?)\(&?[A-Za-z_][A-Za-z0-9_]*")
+
+
+def in_block(body, pos):
+    return any(i < pos < j or (els and els[0] < pos < els[1]) for _, _, i, j, els in blocks(body))
+
+
+def file_gate_at(body, pos, end):
+    """gate of the file whose path is built at `pos` (`<p>.join(CONST)`, ending at `end`).  Inside an `if` the header of
+    that `if` is the gate (gate_at).  OUTSIDE every `if` the file counts as written unconditionally ("-", which fails the
+    tie) only when the text says so itself: the path goes straight into one of the known writing calls, or it is
+    bound by `let` and that variable is used outside every block.  A path handed to some other function, or bound
+    and used only inside a loop / condition further down, is an UNKNOWN shape (the gate lives elsewhere)."""
+    g = gate_at(body, pos)
+    if g not in ("-", "each"):
+        return g
+    start = max(body.rfind(c, 0, pos) for c in ";{}") + 1
+    stmt = re.sub(r"\s+", "", body[start:pos])
+    if DIRECT_WRITE.fullmatch(stmt):
+        return g
+    m = re.fullmatch(r"let(?:mut)?([A-Za-z_][A-Za-z0-9_]*)(?::[^=]+)?=&?[A-Za-z_][A-Za-z0-9_]*", stmt)
+    if m and re.match(r"\s*;", body[end:]):
+        var = m.group(1)
+        uses = [u.start() for u in re.finditer(r"\b" + var + r"\b", body[end:])]
+        if uses and all(not in_block(body, end + u) for u in uses):
+            return g
+        raise UnknownShape("`%s` is bound outside every `if` and used inside a nested block" % var)
+    raise UnknownShape("path of an optional file built in `%s…` outside every `if`" % sanitize(stmt[:40]))
+
+
 def sec_file_gates(src):
     body = fn_body(src["font"], "save_impl")
     rows = []
@@ -465,7 +496,7 @@ def sec_file_gates(src):
         if not m:
             raise NotFound("path.join(%s) in save_impl" % const)
         try:
-            rows.append((name, gate_at(body, m.start())))
+            rows.append((name, file_gate_at(body, m.start(), m.end())))
         except UnknownShape as ex:
             rows.append(row_fallback("fileGates", (name,), 2, str(ex)))
     lb = fn_body(src["layer"], "layerinfo_to_file_if_needed")
